@@ -37,6 +37,7 @@ def opG : FsOp → List Int
   | .write f c => 2 :: fnameG f ++ [(c.length : Int)] ++ (if isLastKind f then c.map Int.ofNat else [])
   | .close f => 3 :: fnameG f
   | .replace s t => 4 :: fnameG s ++ fnameG t
+  | .unlink f => 5 :: fnameG f
 
 /-- chunks of the given sizes with dummy content -/
 def dummyChunks (sizes : List Int) : List Bytes := sizes.map fun n => List.replicate n.toNat 0
@@ -59,6 +60,7 @@ def parseTable : List Int → Option (List Stmt)
         | 3 => some (Stmt.writeLabel (kindOf a))
         | 4 => some (Stmt.closeF (kindOf a))
         | 5 => some (Stmt.replace (kindOf a) (kindOf b))
+        | 6 => some Stmt.prune
         | _ => none).map (· :: tl)
   | _ => none
 
@@ -68,8 +70,8 @@ def tableOf (pinned : Bool) (codes : List Int) : Option (List Stmt) :=
   | [] => some saveTable
   | _ => parseTable codes
 
-def opSaveOps (it : Int) (t : List Stmt) (sizes : List Int) : String :=
-  okG ((opsOf t it (dummyChunks sizes)).map opG)
+def opSaveOps (it : Int) (t : List Stmt) (sizes : List Int) (dels : List Int := []) : String :=
+  okG ((opsOfX t it (dummyChunks sizes) dels).map opG)
 
 def fmtLoad : LoadResult Nat → String
   | .none => "ok 0"
@@ -423,6 +425,10 @@ def step (op : String) (gs : List (List Int)) : String :=
   | "saveops", [[it, pinned], sizes, tbl] =>
     match tableOf (pinned == 1) tbl with
     | some t => opSaveOps it t sizes
+    | none => "err BadOp"
+  | "saveops", [[it, pinned], sizes, tbl, dels] =>
+    match tableOf (pinned == 1) tbl with
+    | some t => opSaveOps it t sizes dels
     | none => "err BadOp"
   | "crash", [[pinned], prev, [it, sid, size], sizes, [n, m], tbl] =>
     match triples prev, tableOf (pinned == 1) tbl with
